@@ -824,14 +824,14 @@ class Prop:
                 bad = None
                 for k, (c, w) in enumerate(zip(cells, wants)):
                     cell_value = zero if mask[k] else data[k]
-                    if not same(norm(cell_value), norm(w), stats):
+                    if not same(norm(cell_value), norm(w), stats, floor=1.0 + 1e-4 * getattr(ref, "maxmag", 0.0)):
                         bad = (c, cell_value, w)
                         break
                 if bad:
                     fail("value-mismatch", f"{desc}: cell {bad[0]}: compiled = {self._show(bad[1])}, reference = {self._show(bad[2])}",
                          {"name": name, "index": list(bad[0])})
                     break
-            elif not same(norm(got), norm(want), stats):
+            elif not same(norm(got), norm(want), stats, floor=1.0 + 1e-4 * getattr(ref, "maxmag", 0.0)):
                 fail("value-mismatch", f"{desc}: compiled = {self._show(got)}, reference = {self._show(want)}",
                      {"name": name, "index": list(index)})
                 break
@@ -913,7 +913,7 @@ class Prop:
                         continue
                     return {"class": "earlier-computation-raises", "info": {},
                             "detail": f"{name_}[{index_}] of the computation defined first, requested after a second computation was built from the same dictionary: raised {type(e).__name__}: {e}"}
-                if not same(norm(got_), norm(want_)):
+                if not same(norm(got_), norm(want_), None, 1.0 + 1e-4 * getattr(ref, "maxmag", 0.0)):
                     return {"class": "earlier-computation-changed", "info": {},
                             "detail": f"{name_}[{index_}] of the computation defined first, requested after a second computation was built from the same dictionary: {self._show(got_)}, reference = {self._show(want_)}"}
             return None
